@@ -207,7 +207,35 @@ def extra(tier, rng, workdir):
                                      "than a restart without the fault (op %s: %s instead of %s)" % (
                                          c["ops"][2][1], "succeeded" if rr[2][2:] == [1] else "reported the error", c["ops"][k + d],
                                          rr[k + d][:8], tr[k + d][:8])})
-    cov = {"load_fault_scenarios": len(lf_cases), "load_faults_fired": lf_fired, "save_race_scenarios": n, "save_race_pause_point_reached": reached, "histories": nhist, "crash_images": images, "repository_histories_K1000": len(rcases), "repository_crash_images": rimages, "distinct_images": len(distinct), "single_fault_runs": len(fcases),
+    # a revert during which one storage operation fails (the delete of a higher file, the read or the truncating
+    # rewrite of the lower one): either the revert reports it - and succeeds when tried again - or it is complete;
+    # afterwards, and after a restart, the store is what a fault-free revert leaves
+    rf_cases, rf_twins = [], []
+    for tip, saved, t in ((2300, 2300, 1800), (2300, 2100, 1800), (3100, 3100, 1500), (1200, 1200, 700))[:3 if tier == "quick" else 4]:
+        for j in range(1, 7 if tier == "quick" else 9):
+            pre = [["addn", 1, saved], ["save"]] + ([["addn", saved + 1, tip - saved]] if tip > saved else [])
+            post = [["lastheight"], ["lasthash"], ["files"], ["hash", t], ["load"], ["lastheight"], ["lasthash"], ["addn", 9001, 300],
+                    ["save"], ["files"], ["load"], ["lastheight"], ["lasthash"], ["hash", t + 200], ["hash", (t // 1000 + 1) * 1000]]
+            rf_cases.append({"cfg": {"rm_err": 1}, "ops": pre + [["revert_fault", t, j]] + post})
+            rf_twins.append({"cfg": {"rm_err": 1}, "ops": pre + [["revert", t]] + post})
+    rf_res, _ = vlib.run_harness("blockrepo", rf_cases + rf_twins, workdir, tag="revertfault")
+    rf_fired = 0
+    for c, rr, tr in zip(rf_cases, rf_res[:len(rf_cases)], rf_res[len(rf_cases):]):
+        k = len(c["ops"]) - 15
+        ob = rr[k - 1]
+        rf_fired += ob[1] if len(ob) > 1 else 0
+        if ob[0] != 0:
+            failures.append({"suite": "revertfault", "checker": "revert_fault", "step": k - 1, "cfg": c["cfg"], "ops": c["ops"],
+                             "expected": [0], "observed": ob, "trace": rr,
+                             "what": "a revert that reported a storage fault could not be completed when tried again"})
+        elif rr[k:] != tr[k:]:
+            d = next(i for i, (a, b) in enumerate(zip(rr[k:], tr[k:])) if a != b)
+            failures.append({"suite": "revertfault", "checker": "revert_fault", "step": k + d, "cfg": c["cfg"], "ops": c["ops"],
+                             "expected": tr[k + d], "observed": rr[k + d], "trace": rr,
+                             "what": "a revert during which storage operation %d failed (%s) left another store than a fault-free revert "
+                                     "(op %s: %s instead of %s)" % (c["ops"][k - 1][2], "reported and repeated" if ob[2:] == [1] else "reported success",
+                                                                  c["ops"][k + d], rr[k + d][:8], tr[k + d][:8])})
+    cov = {"revert_fault_scenarios": len(rf_cases), "revert_faults_fired": rf_fired, "load_fault_scenarios": len(lf_cases), "load_faults_fired": lf_fired, "save_race_scenarios": n, "save_race_pause_point_reached": reached, "histories": nhist, "crash_images": images, "repository_histories_K1000": len(rcases), "repository_crash_images": rimages, "distinct_images": len(distinct), "single_fault_runs": len(fcases),
            "faults_that_fired": hit,
            "samples_crash": [{"ops": cases[0]["ops"][:12], "log": ext[0]["log"][:8], "images": ext[0]["images"][:8]}]}
     return {"failures": failures, "evaluations": images + rimages + len(fcases), "coverage": cov}
@@ -219,6 +247,10 @@ def suites(tier, rng, replay):
 
 
 def keyfn(rec):
+    if rec.get("suite") == "revertfault":
+        ops = rec.get("ops", [])
+        st = rec.get("step", 0)
+        return "revertfault:%s" % (ops[st][0] if 0 <= st < len(ops) else "?")
     if rec.get("suite") == "loadfault":
         ops = rec.get("ops", [])
         st = rec.get("step", 0)
